@@ -5,7 +5,8 @@ EXTENDS Config, Json
 
 CONSTANTS MaxEdits
 
-Grid == {-206, -1, 0, 1, 2, 16, 50, 51, 63, 64, 65, 255, 256, 300, 8080, 65535, 65536, 70000}
+Grid == {-206, -1, 0, 1, 2, 16, 50, 51, 63, 64, 65, 255, 256, 300, 8080, 8686, 65535, 65536, 70000}   \* (8686 = the base port:
+                                                     \* a TCP health-check port may carry the same number as the UDP port)
 
 VARIABLES w, src, edits, loaded
 vars == <<w, src, edits, loaded>>
